@@ -399,7 +399,8 @@ class C02(Property):
             "limits, repeated requests; in half of the steps preceded by check_options, whose verdict is checked against "
             "the Lean spec `optionsOk`), every ruleset read when returned and again after the last call, checked "
             "against the Lean spec `wanted` (shipped rules restricted and scaled once); Ruleset.from_files with "
-            "multipliers; `continuations`: a base parsed once and its rule list object handed as existing_rules to 2-4 "
+            "multipliers; `levels`: _get_rule_files_for_strictness and _get_rules for every level (and an unknown one) against "
+            "the model's ruleFilesFor, each level's rules a prefix of the next; `continuations`: a base parsed once and its rule list object handed as existing_rules to 2-4 "
             "follow-up Parser(...) calls (branching from the base or from a continuation, referring to / redefining rules "
             "only another branch defined), every list read when returned and after the last parse, each outcome "
             "checked against the text parsed after the value of the list it was given; `layout`: written words (keywords, identifiers, numbers, symbols, tokens of generated files) with "
@@ -712,8 +713,9 @@ class C02(Property):
                    "cmul": rng.choice([1.0, 1.5, 2.0, 0.5]), "nmul": rng.choice([1.0, 1.5, 3.0, 0.25])}
 
     def cases(self, rng: random.Random, tier: str, deep: bool) -> Iterator[Dict[str, Any]]:
-        yield from self.ruleset_cases(rng, 150 if tier == "thorough" else 40 if deep else 12)
+        yield from self.ruleset_cases(rng, 150 if tier == "thorough" else 40 if deep else 10)
         yield from self.from_files_cases(rng, 12 if deep else 4)
+        yield {"kind": "levels", "ask": ["strict", "relaxed", "loose", "lax", "relaxed"]}
         yield from self.continuation_cases(rng, 3000 if tier == "thorough" else 600 if deep else 120)
         yield from self.layout_cases(rng, 20000 if tier == "thorough" else 4000 if deep else 400)
         for level in ("strict", "relaxed", "loose"):
@@ -721,7 +723,7 @@ class C02(Property):
         yield {"kind": "parse", "shipped": "loose", "via": "create", "cmul": [3, 2], "nmul": [1, 2]}
         yield {"kind": "parse", "shipped": rng.choice(["strict", "relaxed", "loose"]), "via": "get_rules",
                "cmul": [1, 1], "nmul": [1, 1]}
-        n_well = 2500 if deep else 400
+        n_well = 2500 if deep else 300
         for i in range(n_well):
             case, _ = self.wellformed(rng)
             yield case
@@ -800,6 +802,20 @@ class C02(Property):
             return self._run_from_files(case)
         if case["kind"] == "continuations":
             return self._run_continuations(case)
+        if case["kind"] == "levels":
+            from antismash.detection import hmm_detection as hd
+            files: List[Any] = []
+            names: List[Any] = []
+            for level in case["ask"]:
+                try:
+                    files.append([os.path.basename(path) for path in hd._get_rule_files_for_strictness(level)])  # pylint: disable=protected-access
+                    names.append([rule.name for rule in hd._get_rules(level)])  # pylint: disable=protected-access
+                except AssertionError:      # the function's own `assert strictness in _STRICTNESS_LEVELS`
+                    files.append(None)
+                    names.append(None)
+                except Exception as exc:  # pylint: disable=broad-except
+                    return {"err": self._kind(exc)}
+            return {"files": files, "names": names}
         mult = Multipliers(case["cmul"][0] / case["cmul"][1], case["nmul"][0] / case["nmul"][1])
         old = signal.signal(signal.SIGALRM, _alarm)
         signal.setitimer(signal.ITIMER_REAL, 10.0)
@@ -954,6 +970,9 @@ class C02(Property):
     def driver_line(self, case: Dict[str, Any], obs: Dict[str, Any]) -> Optional[Dict[str, Any]]:
         if case["kind"] == "tokens":
             return {"kind": "tokens", "text": case["text"]}
+        if case["kind"] == "levels":
+            sigs, cats = self._shipped()
+            return {"kind": "levels", "sigs": sigs, "cats": cats, "ask": case["ask"], "impl_names": obs.get("names", [])}
         if case["kind"] == "continuations":
             return {"kind": "continuations", "sigs": case["sigs"], "cats": case["cats"], "cmul": case["cmul"],
                     "nmul": case["nmul"], "steps": case["steps"]}
@@ -1002,6 +1021,20 @@ class C02(Property):
             abut = any(it["gap"] and "c" in it["gap"][0] for it in case["items"][1:])
             return Judgement(same, spec_ok, in_scope=bool(drv["scope"]), nontrivial=len(case["items"]) >= 2 and abut,
                              tags=("layout", "abutting-comment" if abut else "layout-plain"), detail=detail)
+        if case["kind"] == "levels":
+            if "err" in obs:
+                return Judgement(False, False, detail=f"levels: {obs['err']}")
+            model, spec = drv["model"], drv["spec"]
+            corr = model["files"] == obs["files"] and model["names"] == obs["names"]
+            spec_ok = bool(spec["prefix_chain"]) and model["files"] == obs["files"]
+            detail = ""
+            if not spec["prefix_chain"]:
+                detail = "the rules of a stricter level are not the first rules of the next looser level"
+            elif model["files"] != obs["files"]:
+                detail = f"_get_rule_files_for_strictness: {obs['files']} but the levels up to the requested one are {model['files']}"
+            elif not corr:
+                detail = "levels: rule names of the model and of _get_rules differ"
+            return Judgement(corr, spec_ok, nontrivial=True, tags=("levels",), detail=detail)
         if case["kind"] == "continuations":
             model, spec = drv["model"], drv["spec"]
             corr = model["steps"] == obs["steps"] and model["final"] == obs["final"]
@@ -1161,7 +1194,7 @@ class C02(Property):
     def key(self, case: Dict[str, Any]) -> str:
         import hashlib
         import json
-        c = {k: case.get(k) for k in ("kind", "files", "text", "shipped", "cmul", "nmul", "steps", "strictness", "via", "items", "tail")}
+        c = {k: case.get(k) for k in ("kind", "files", "text", "shipped", "cmul", "nmul", "steps", "strictness", "via", "items", "tail", "ask")}
         return hashlib.md5(json.dumps(c, sort_keys=True).encode()).hexdigest()
 
     # ------------------------------------------------------------------ shrinking
